@@ -11,6 +11,7 @@
   `cfgOfSource`, i.e. about the tree as it is now.
 -/
 import Nervus.Proofs.CrashMain
+import Nervus.Proofs.CrashIndex
 namespace Nervus.Props.C02
 open Nervus Nervus.Crash
 
@@ -29,8 +30,9 @@ theorem source_ok :
     close, in both crash modes, iterated) with no precondition other than fresh external ids, the
     next open succeeds and shows an admissible transaction list.  False today because of the known
     finding C01-live-tree-in-place (`counterexample_live_tree`: a torn in-place write of a live
-    leaf); not proved for compactions that split a leaf.  The proved part is `crash_prefix`,
-    which adds exactly these two conditions (`CondHist`). -/
+    leaf, `counterexample_live_split`: an in-place split of the live leaf); not proved for
+    compactions that sink into a live tree with an internal root.  The proved part is
+    `crash_prefix` / `crash_prefix_cfg`, which add exactly these conditions (`CondHist`). -/
 def C02_full : Prop :=
   ∀ (rounds : List Round), FreshHist [] rounds →
     ∃ T m fs', Spec.Admissible [] (rounds.map Round.obs) T ∧
@@ -48,7 +50,9 @@ theorem created_closed : Closed [] (created cfgOfSource) := by
       by decide, by decide, by decide, by intro i hi; rw [hlen] at hi; omega⟩
   · refine ⟨by intro k hk; simp [scan] at hk, by rw [hsegs]; intro s hs; simp at hs,
       by rw [htrees]; intro t ht; simp at ht, by intro e; simp [allEdges, logRuns, scan], by intro q hq; simp [logRuns] at hq,
-      by decide, ⟨[], by intro q hq; simp [allProps] at hq, fun _ => rfl, fun h => absurd (by decide) h⟩⟩
+      ⟨[], by intro q hq; simp [allProps] at hq, fun _ => rfl, fun h => absurd (by decide) h⟩⟩
+
+theorem leafCap_pos : 1 ≤ cfgOfSource.leafCap := by decide
 
 /-- **C02 (every step, one commit)**: from any state in which files and handle agree on `T`,
     after EVERY prefix of the I/O steps of a commit, in EVERY crash mode (process death; power loss
@@ -88,15 +92,16 @@ theorem open_every_step {T : List Tx} {fs : FS} (hc : Closed T fs) :
 /-- **C02 (every step, compaction)**: from any state in which files and handle agree on `T`,
     after EVERY prefix of the I/O steps of `compact` (segment persist, property sinking into the
     live or a new tree, statistics blob, manifest + checkpoint records, log sync), in EVERY crash
-    mode that tears no leaf write of the live property tree, the files represent `T` — provided
-    the sinking does not split a leaf (`NoSplit`). -/
+    mode that tears no leaf write of the live property tree, the files represent `T` — leaf splits
+    in a NEW tree included; only the LIVE tree must be one leaf with room (`NoLiveSplit`: an
+    in-place split of the live tree is finding C01-live-tree-in-place). -/
 theorem compact_every_step {T : List Tx} {fs : FS} {m : Mem} {cs : List CTx} {c : Nat}
-    (h : InvOpen T fs m cs c) (ht : TailPre cfgOfSource fs m) (hns : NoSplit cfgOfSource m fs.pv) :
+    (h : InvOpen T fs m cs c) (ht : TailPre cfgOfSource fs m) (hns : NoLiveSplit cfgOfSource m fs.pv) :
     let S := ioSteps (compactA cfgOfSource m fs.pv fs.wf)
     ∀ n mode, mode.tearsLive m.proot (fs.steps (S.take n)).pj = false →
       Rep T ((fs.steps (S.take n)).crashP mode) ((fs.steps (S.take n)).crashW mode) := by
   intro S n mode hm
-  obtain ⟨T', hT', hr⟩ := compact_safe h ht hns n mode hm
+  obtain ⟨T', hT', hr⟩ := compact_safe leafCap_pos h ht hns n mode hm
   simp only [List.mem_singleton] at hT'
   subst hT'
   exact hr
@@ -104,10 +109,10 @@ theorem compact_every_step {T : List Tx} {fs : FS} {m : Mem} {cs : List CTx} {c 
 /-- a completed compaction leaves handle and files in agreement on the same list `T` (so that
     every later operation starts from the invariant again) -/
 theorem compact_keeps_invariant {T : List Tx} {fs : FS} {m : Mem} {cs : List CTx} {c : Nat}
-    (h : InvOpen T fs m cs c) (ht : TailPre cfgOfSource fs m) (hns : NoSplit cfgOfSource m fs.pv) :
+    (h : InvOpen T fs m cs c) (ht : TailPre cfgOfSource fs m) (hns : NoLiveSplit cfgOfSource m fs.pv) :
     ∃ cs' c', InvOpen T (run (compactA cfgOfSource m fs.pv fs.wf) .none fs m).fs
       (run (compactA cfgOfSource m fs.pv fs.wf) .none fs m).mem cs' c' := by
-  obtain ⟨cs', c', hinv, _⟩ := compact_post h ht hns
+  obtain ⟨cs', c', hinv, _⟩ := compact_post leafCap_pos h ht hns
   obtain ⟨r1, r2, _⟩ := run_none (compactA cfgOfSource m fs.pv fs.wf) fs m
   exact ⟨cs', c', by rw [r1, r2]; exact hinv⟩
 
@@ -128,9 +133,9 @@ theorem close_every_step {T : List Tx} {fs : FS} {m : Mem} {cs : List CTx} {c : 
     list of incarnations — open, any commits and compactions, death inside the open, a commit, a
     compaction or the close at ANY I/O step, or between operations, in ANY crash mode — iterated
     any number of times, with fresh non-zero external ids (what the API guarantees) and the two
-    compaction conditions `CondHist` (no compaction splits a leaf of the property tree; a power
-    loss inside a compaction tears no leaf write of the live tree: the known finding
-    C01-live-tree-in-place), the next open succeeds and its content is that of an admissible
+    compaction conditions `CondHist` (no compaction splits a leaf of the LIVE property tree in
+    place — leaf splits in a new tree are covered; a power loss inside a compaction tears no leaf
+    write of the live tree: both are the known finding C01-live-tree-in-place), the next open succeeds and its content is that of an admissible
     transaction list: every acknowledged commit, and each commit in flight at a death entirely or
     not at all, in commit order. -/
 theorem crash_prefix (rounds : List Round) (hok : FreshHist [] rounds)
@@ -138,7 +143,7 @@ theorem crash_prefix (rounds : List Round) (hok : FreshHist [] rounds)
     ∃ T m fs', Spec.Admissible [] (rounds.map Round.obs) T ∧
       recover cfgOfSource (afterRounds cfgOfSource (created cfgOfSource) rounds) = .ok (m, fs') ∧
       Spec.Content.same (content m fs'.pv) (Spec.run T) :=
-  crash_recover (cfg := cfgOfSource) source_ok.1 source_ok.2.2.1 source_ok.2.1 rounds [] (created cfgOfSource) []
+  crash_recover (cfg := cfgOfSource) source_ok.1 source_ok.2.2.1 source_ok.2.1 leafCap_pos rounds [] (created cfgOfSource) []
     (Or.inl created_closed) (by simp [allNodes]) (histOK_of_fresh source_ok.2.2.2.1 rounds _ _ hok hc)
 
 /-- **C02 (all histories, including the creation)**: the same starting from files that do not
@@ -152,8 +157,41 @@ theorem crash_prefix_creation (rounds : List Round) (hok : FreshHist [] rounds)
     ∃ T m fs', Spec.Admissible [] (rounds.map Round.obs) T ∧
       recover cfgOfSource (afterRounds cfgOfSource ({} : FS) rounds) = .ok (m, fs') ∧
       Spec.Content.same (content m fs'.pv) (Spec.run T) :=
-  crash_recover (cfg := cfgOfSource) source_ok.1 source_ok.2.2.1 source_ok.2.1 rounds [] ({} : FS) []
+  crash_recover (cfg := cfgOfSource) source_ok.1 source_ok.2.2.1 source_ok.2.1 leafCap_pos rounds [] ({} : FS) []
     (Or.inr ⟨rfl, nascent_empty⟩) (by simp [allNodes]) (histOK_of_fresh source_ok.2.2.2.1 rounds _ _ hok hc)
+
+/-- **C02 for every configuration that meets `CfgOK`** — in particular for EVERY leaf capacity
+    ≥ 1 — from files that do not exist yet.  With a small capacity the compactions of a history
+    split leaves of a new tree many times (`ex_split` below); the hypothesis `CondHist` only asks
+    that no compaction sinks into a LIVE tree that would have to be split in place or that
+    already has an internal root. -/
+theorem crash_prefix_cfg (cfg : Cfg) (hcfg : CfgOK cfg) (rounds : List Round) (hok : FreshHist [] rounds)
+    (hc : CondHist cfg ({} : FS) rounds) :
+    ∃ T m fs', Spec.Admissible [] (rounds.map Round.obs) T ∧
+      recover cfg (afterRounds cfg ({} : FS) rounds) = .ok (m, fs') ∧
+      Spec.Content.same (content m fs'.pv) (Spec.run T) :=
+  crash_recover (cfg := cfg) hcfg.1 hcfg.2.2.1 hcfg.2.1 hcfg.2.2.2.2 rounds [] ({} : FS) []
+    (Or.inr ⟨rfl, nascent_empty⟩) (by simp [allNodes]) (histOK_of_fresh hcfg.2.2.2.1 rounds _ _ hok hc)
+
+/-- **C02 (commits that set indexed properties; everything except lookups through the index)**:
+    `WriteTxn::commit` writes the index leaf and the index catalog page in place BEFORE CommitTx
+    (`Model/IndexSteps`: `commitIxSteps`).  A history that ends with a death at ANY step `n` of
+    such a commit, in any crash mode and with any selection `c.keepIx` of the unsynced index
+    entries, leaves files (without the index) that are those of the same history with a plain
+    commit: the next open succeeds and nodes, edges and properties are those of an admissible
+    list.  What `lookup_index` returns is NOT covered — see `counterexample_index_before_commit`. -/
+theorem crash_prefix_indexed (rounds : List Round) (ops : List HOp) (tx : Tx) (ixs ixd : List (Nat × Nat)) (n : Nat) (c : ICrash)
+    (hok : ∀ n', FreshHist [] (rounds ++ [⟨ops, .inCommit tx n', c.mode⟩]))
+    (hc : ∀ n', CondHist cfgOfSource (created cfgOfSource) (rounds ++ [⟨ops, .inCommit tx n', c.mode⟩])) :
+    ∃ T m fs', Spec.Admissible [] (rounds.map Round.obs ++ [⟨commitsOf ops, some tx⟩]) T ∧
+      recover cfgOfSource
+        (indexedDeath cfgOfSource (afterRounds cfgOfSource (created cfgOfSource) rounds) ixd ops tx ixs n c).fs = .ok (m, fs') ∧
+      Spec.Content.same (content m fs'.pv) (Spec.run T) := by
+  obtain ⟨n', hn'⟩ := indexedDeath_fs cfgOfSource (afterRounds cfgOfSource (created cfgOfSource) rounds) ixd ops tx ixs n c
+  obtain ⟨T, m, fs', hadm, hrec, hsame⟩ := crash_prefix _ (hok n') (hc n')
+  rw [afterRounds_snoc, ← hn'] at hrec
+  rw [List.map_append] at hadm
+  exact ⟨T, m, fs', hadm, hrec, hsame⟩
 
 /-- **C02 (creation, every step)**: `open` on a nascent database — never created, or cut short at
     any step of an earlier creation — succeeds; after EVERY prefix of its I/O steps, in EVERY crash
@@ -243,23 +281,66 @@ theorem counterexample_live_tree :
       | .ok (m, fs) => some ((content m fs.pv).props.contains 10000)
       | .error _ => none) = some false := by decide
 
-/-! ### leaf splits during property sinking (not covered by `crash_prefix`: hypothesis `NoSplit`)
+/-- current tree, known finding C02-index-before-commit (`Model/IndexSteps`: node 1 {k:1} is
+    committed and indexed; the commit of node 2 {k:2} dies at I/O step n; its steps are 9 log
+    fragments, the index leaf, the index catalog page, 3 fragments of CommitTx, the log sync, the
+    node table).  Process death before the leaf write (n = 9): the index has nothing for key 2.
+    Process death right after it (n = 10), or power loss before the log sync (n = 14) with the
+    leaf page persisted: the next open shows only node 1001 (internal id 0), but
+    `lookup_index(L,k,2)` returns internal id 1 — a node that does not exist (the real engine
+    returns `[1]`, `idx 10` line of the stream).  With the leaf page lost the index is clean; after
+    the log sync (n = 15) the node exists. -/
+theorem counterexample_index_before_commit :
+    ixProbe cfgOfSource 9 ⟨.proc, []⟩ = some ([1001], []) ∧
+    ixProbe cfgOfSource 10 ⟨.proc, []⟩ = some ([1001], [1]) ∧
+    ixProbe cfgOfSource 14 ⟨.power [] 0 false, [true]⟩ = some ([1001], [1]) ∧
+    ixProbe cfgOfSource 14 ⟨.power [] 0 false, [false]⟩ = some ([1001], []) ∧
+    ixProbe cfgOfSource 15 ⟨.proc, []⟩ = some ([1001, 2001], [1]) := by decide
 
-Demonstrated on the model with a small leaf capacity (`leafCap := 4`; the real capacity is 281, the
-thorough tier of the stream runs the same scenarios on the real engine with 150–350 properties):
-* a split in a NEW tree (first compaction) is harmless at every step — the tree is not reachable
-  before the manifest is durable;
+/-! ### leaf splits during property sinking
+
+Proved (`Proofs/CrashSplit`, `Proofs/CrashTreeM`): sinking into a NEW tree is safe at every step
+with any number of leaf splits (the chain of leaves, the sibling flags and the internal root stay in
+the shape `TreeShape`, on which `route` + `leafFind` find exactly the keys), and the state after a
+completed split compaction (multi-leaf tree, `ptop = true`) satisfies the invariant, so commits,
+crashes, recoveries, closes and property-less compactions after it are covered by `crash_prefix`.
+`ex_split` is such a history (leaf capacity 4, so that `decide` can run it; the real capacity is
+281 and the thorough tier of the stream runs the same scenarios on the real engine with 150–350
+properties).
+
+Not covered (`NoLiveSplit`): sinking into the LIVE tree unless it is a single leaf with room:
 * a split of the LIVE leaf rewrites its left half IN PLACE and syncs it (with the next page
   allocation) long before the manifest: from that write on, until the system transaction is
   complete in the log, EVERY crash image — plain process death included — has lost the entries of
   the right half except its first (the old manifest enters at the old root leaf, the cursor only
   looks at slot 0 of the right sibling).  This is the known finding C01-live-tree-in-place; no
-  selection of unsynced writes avoids it once the sync has happened. -/
+  selection of unsynced writes avoids it once the sync has happened (`counterexample_live_split`);
+* sinking without split into a live tree that already has an internal root is safe on the model
+  in every case tried but is outside the proved class (the class fixes `ptop = false` for a live
+  tree that is written to). -/
 
 def cfgSplit : Cfg := { cfgOfSource with leafCap := 4 }
 def split_tx0 : Tx := ⟨[1001], [], [10000, 10001, 10002, 10003, 10004, 10005]⟩
 def split_tx1 : Tx := ⟨[1001], [], [10000, 10001, 10002, 10003]⟩
 def split_tx2 : Tx := ⟨[2001], [], [20000]⟩
+
+/-- non-vacuity of `crash_prefix_cfg` with leaf splits: power loss in the middle of a compaction
+    that splits the leaves of a new tree (6 properties, capacity 4), the next incarnation repeats
+    the compaction to the end and dies in the close; the third one works on the multi-leaf tree
+    (`ptop = true`), compacts (edges only) and loses power inside a commit; the fourth is clean -/
+def ex_split : List Round :=
+  [⟨[.commit split_tx0], .inCompact 40, .power [.keep, .drop, .keep] 0 false⟩,
+   ⟨[.compact, .commit ⟨[2001], [2000], []⟩], .inClose 3, .proc⟩,
+   ⟨[.commit ⟨[3001], [3000], []⟩, .compact], .inCommit ⟨[4001], [], [40000]⟩ 5, .power [.keep] 1 false⟩,
+   ⟨[], .idle, .proc⟩]
+
+example : CfgOK cfgSplit := by decide
+example : FreshHist [] ex_split := by decide
+example : CondHist cfgSplit ({} : FS) ex_split := by decide
+example : (match recover cfgSplit (afterRounds cfgSplit ({} : FS) ex_split) with
+    | .ok (m, fs) => some (content m fs.pv, m.proot, m.ptop)
+    | .error _ => none) =
+    some (⟨[1001, 2001, 3001], [2000, 3000], [10000, 10001, 10002, 10003, 10004, 10005]⟩, 15, true) := by decide
 
 def splitProps (rounds : List Round) : Option (List Nat) :=
   match recover cfgSplit (afterRounds cfgSplit (created cfgSplit) rounds) with
